@@ -1,17 +1,28 @@
 import gfapy
 
+def validate_interval(line, begpos, endpos):
+  """Checks the two positions of an interval of a segment or fragment:
+  begin <= end; if begin is marked as the last position ($),
+  then end is that same position."""
+  if isinstance(begpos, str) or isinstance(endpos, str):
+    return # (not parsed: validation level 0)
+  if gfapy.posvalue(begpos) > gfapy.posvalue(endpos):
+    raise gfapy.ValueError(
+      "Line: {}\n".format(str(line))+
+      "begin > end: {} > {}".format(gfapy.posvalue(begpos),
+                                    gfapy.posvalue(endpos)))
+  if gfapy.islastpos(begpos) and (not gfapy.islastpos(endpos) or
+      gfapy.posvalue(begpos) != gfapy.posvalue(endpos)):
+    raise gfapy.FormatError(
+      "Line: {}\n".format(str(line))+
+      "Wrong use of $ marker\n"+
+      "begin: {}, end: {}".format(begpos, endpos))
+
 class Validation:
 
   def _validate_record_type_specific_info(self):
     for n in ["1", "2"]:
-      begpos, endpos = self.get("beg"+n), self.get("end"+n)
-      if isinstance(begpos, str) or isinstance(endpos, str):
-        continue # (not parsed: validation level 0)
-      if gfapy.posvalue(begpos) > gfapy.posvalue(endpos):
-        raise gfapy.ValueError(
-          "Line: {}\n".format(str(self))+
-          "begin > end: {} > {}".format(gfapy.posvalue(begpos),
-                                        gfapy.posvalue(endpos)))
+      validate_interval(self, self.get("beg"+n), self.get("end"+n))
 
   def validate_positions(self):
     "Checks that positions suffixed by $ are the last position of segments"
